@@ -54,7 +54,7 @@ class LazyDense(Dense_):
         for e,v in zip(self._enc, self._load_or_get()):
             try:
                 yield e(v)
-            except:
+            except Exception:
                 if v in ['?','']:
                     yield None
                 else:
